@@ -349,7 +349,23 @@ class Extractor {
         // structured binding: the name stands for an expression on the hidden decomposed variable
         if (const Expr *B = BD->getBinding()) return ser(B);
       }
-      serDeclRef(DR, O);
+      bool Folded = false;
+      if (const auto *FV = dyn_cast<VarDecl>(DR->getDecl())) {
+        // a floating-point constant with static storage (constexpr double kOne = 1.0;): its value, like a literal
+        QualType FT = FV->getType();
+        if (FV->hasGlobalStorage() && FT.isConstQualified() && FT->isFloatingType() && FV->hasInit() && !FV->getInit()->isValueDependent() &&
+            FV->hasConstantInitialization()) {
+          if (const APValue *V = FV->evaluateValue()) {
+            if (V->isFloat()) {
+              O["k"] = "fconst";
+              O["v"] = V->getFloat().convertToDouble();
+              O["text"] = FV->getNameAsString();
+              Folded = true;
+            }
+          }
+        }
+      }
+      if (!Folded) serDeclRef(DR, O);
     } else if (const auto *ME = dyn_cast<MemberExpr>(S)) {
       O["k"] = "member";
       O["name"] = ME->getMemberDecl()->getNameAsString();
